@@ -109,7 +109,9 @@ TTrunc ==
   /\ IsEv("trunc")
   /\ LET e == E
          cls == "len" \o ToString(e.seedlen) \o ":" \o e.pwkind IN
-     /\ \A i \in DOMAIN e.res : Check(e.res[i] = "err", "TruncIsError", e, "trunc:" \o e.res[i], <<cls, i - 1>>)
+     \* Err - or, should a format ever end in bytes the parser ignores, the SAME seed; never a panic, never another seed
+     /\ \A i \in DOMAIN e.res : Check(e.res[i] \in {"err", "s0"}, "TruncIsError", e, "trunc:" \o e.res[i], <<cls, i - 1>>)
+     /\ CheckM_(\A i \in DOMAIN e.res : e.res[i] = "err", e, "trunc", cls)
      /\ \A k \in DOMAIN e.wrong : Check(e.wrong[k] = "err", "OpenSound", e, "open_wallet:" \o e.wrong[k], <<cls, k>>)
      /\ Check(e.full = "s0", "OpensWithSavedPw", e, "open_wallet:" \o e.full, cls)
      /\ CheckM_(e.created = "ok" /\ e.indep_len = e.seedlen, e, "create", <<e.created, e.indep_len>>)
